@@ -2,6 +2,7 @@ package main
 
 import (
 	"fmt"
+	"go/types"
 	"golang.org/x/tools/go/ssa"
 	"strings"
 )
@@ -63,12 +64,19 @@ func checkC12(c *Ctx, r *Report) {
 	checkWholeOps(c, r)
 	// "never smaller than the symbol": the margin the renderers add is not negative
 	checkMarginNonNegative(c, r)
+	checkBitMatrixCtor(c, r) // the writers that discard NewBitMatrix's error have excluded the one thing it refuses
+	// the size clause itself: the output size, module size and padding terms of the three renderers (same obligations as
+	// under C14): a matrix narrower than symbol + quiet zone, or a module size that overruns it, is decided here
+	declareRenderRules(r, 3)
+	renderQR(c, r)
+	renderDM(c, r)
+	renderOneD(c, r)
 	checkNumericOnly(c, r) // the table lookups contents[i] - '0' of ITF / UPC / EAN rest on it
 	// the Data Matrix end-of-data handlers index the message and the codeword list: folded on the context model
 	checkDMX12EOD(c, r)
 	checkDMEdifactEOD(c, r)
 	checkDMC40EOD(c, r)
-	r.Note("not decided: termination of the Data Matrix mode loop (needs a ranking argument over data-dependent rewinds); the size clause (matrix never smaller than the symbol / the request) is decided by the rendering terms under C14")
+	r.Note("not decided: termination of the Data Matrix mode loop (needs a ranking argument over data-dependent rewinds)")
 }
 
 // E-CHARENC: the recursive C40 / Text character encoders end for every character
@@ -106,4 +114,77 @@ func checkDMCharEncodersTotal(c *Ctx, r *Report) {
 		}
 		reportFold(r, c, "E-CHARENC", key, fd.Pos(), bad)
 	}
+}
+
+// M-MATRIXCTOR: when NewBitMatrix refuses
+func checkBitMatrixCtor(c *Ctx, r *Report) {
+	r.Rule("M-MATRIXCTOR", "NewBitMatrix refuses a size exactly when a dimension is below 1: its guards, folded over a grid of widths and heights from -1 to 200 000, fire for those and for no other size - several callers discard its error on the strength of having tested the dimensions themselves (the frozen E-DROP rows for NewBitMatrix), and would go on with a nil matrix if it refused anything else", 1)
+	fd, p := c.funcDeclOf("", "NewBitMatrix")
+	key := "gozxing.NewBitMatrix/refusals"
+	if fd == nil {
+		r.AnchorLost("M-MATRIXCTOR", key, "constructor not found")
+		return
+	}
+	r.Analysed(key)
+	ps := paramObjs(p, fd)
+	bad := ""
+	if len(ps) != 2 {
+		bad = "?NewBitMatrix no longer takes (width, height)"
+	}
+	dims := []int64{-1, 0, 1, 2, 31, 32, 33, 1000, 12000, 200000}
+	for _, w := range dims {
+		for _, h := range dims {
+			if bad != "" {
+				break
+			}
+			env := map[types.Object]*Val{ps[0]: vint(w), ps[1]: vint(h)}
+			fired, err := guardFires(c, fd, p, env, &rpf{callHook: errCtorHook}, 0)
+			if err != "" {
+				bad = "?" + err
+				break
+			}
+			if want := w < 1 || h < 1; fired != want {
+				bad = fmt.Sprintf("NewBitMatrix(%d, %d): refused = %v; only a dimension below 1 is refused", w, h, fired)
+			}
+		}
+	}
+	reportFold(r, c, "M-MATRIXCTOR", key, fd.Pos(), bad)
+}
+
+// M-NONEMPTY: a 2-D writer's own preconditions on the contents
+func checkWriterAcceptsContents(c *Ctx, r *Report, rel, method, format string) {
+	r.Rule("M-NONEMPTY", "the writer's leading guards - folded over contents that are empty, blank only (a space, CR LF, ten spaces, a no-break space), and ordinary, with the writer's own format and a requested size of 0x0 and 10x10 - refuse the empty string and nothing else: every non-empty text goes on to the encoder, which alone decides what it can represent", 1)
+	fd, p := c.funcDeclOf(rel, method)
+	key := rel + "." + method + "/contents"
+	if fd == nil {
+		r.AnchorLost("M-NONEMPTY", key, "method not found")
+		return
+	}
+	r.Analysed(key)
+	ps := paramObjs(p, fd)
+	fv, ok := constValIn(c, "", format)
+	bad := ""
+	if len(ps) != 5 || !ok {
+		bad = "?Encode signature or format constant changed"
+	}
+	for _, s := range []string{"", " ", "\r\n", "          ", " ", "a", " a ", "0"} {
+		for _, sz := range []int64{0, 10} {
+			if bad != "" {
+				break
+			}
+			env := map[types.Object]*Val{ps[0]: vstr(s), ps[1]: vint(fv), ps[2]: vint(sz), ps[3]: vint(sz), ps[4]: {K: VNil}}
+			if ro := recvObj(p, fd); ro != nil {
+				env[ro] = &Val{K: VStruct, Ptr: true, Fields: map[string]*Val{}}
+			}
+			fired, err := guardFires(c, fd, p, env, &rpf{callHook: errCtorHook}, 0)
+			if err != "" {
+				bad = "?" + err
+				break
+			}
+			if want := s == ""; fired != want {
+				bad = fmt.Sprintf("contents %q at %dx%d: refused by the writer's own guards = %v; only the empty string is refused there", s, sz, sz, fired)
+			}
+		}
+	}
+	reportFold(r, c, "M-NONEMPTY", key, fd.Pos(), bad)
 }
